@@ -30,7 +30,7 @@ CHECKS = {
         engine="simsym", category="translation_validation", ref="DESIGN.md 2, 5 (C09)",
         technique="SMT-based translation validation (symbolic execution of emitted Simplicity, z3 QF_UFBV); symbolic exit iteration, uninterpreted accumulator updates",
         text="One for_while per program, counter widths 1,2,4,8 with the exit iteration decided by a witness (so one query covers every exit iteration and 'never'), bodies that panic after the "
-             "exit point, ignore the counter, use tuple accumulators / unit contexts / a result type different from the accumulator; 16-bit counters with the exit point given as a literal (quick: 0, 1, 2, 257; thorough: 8 literals <= 4095 ; longer 16-bit runs take 45-90 min each in this engine and are outside the claim). "
+             "exit point, ignore the counter, use tuple accumulators / unit contexts / a result type different from the accumulator; 16-bit counters: EVERY exit iteration incl. never by a compositional proof (loop cut after 8 counter bits: the program with the level-8 sub-expression replaced by an uninterpreted function equals the source loop over 256 prefixes, and that sub-expression equals the source loop over the 256 suffixes for every accumulator / context / prefix; jets uninterpreted), plus literal exit points with interpreted jets (quick: 0, 1, 2, 257; thorough: 8 literals <= 4095). "
              "The solver proves equality with the source-level loop 'first Left wins, later iterations are not evaluated, Right(acc) after 2^n iterations' for all accumulator/context values.",
         note=TRUST_E1),
     "C10": dict(
